@@ -15,7 +15,7 @@ TolOf(c)  == Tol[RowOf(c).res]
 
 (* structural well-formedness of a Cfg event against the catalogue *)
 CfgOK(c) == /\ c.fam \in Families
-            /\ \A g \in {c.groups[i] : i \in 1..Len(c.groups)} : g \in {"EOS", "PDE", "ADM", "RH", "FIN", "INT", "BURN", "ELAS", "HEAT", "SUOL", "RAD", "R2D"}
+            /\ \A g \in {c.groups[i] : i \in 1..Len(c.groups)} : g \in {"EOS", "PDE", "ADM", "RH", "FIN", "INT", "BURN", "ELAS", "HEAT", "SUOL", "RAD", "R2D", "RZ"}
 
 Groups(c) == {c.groups[i] : i \in 1..Len(c.groups)}
 
@@ -61,13 +61,13 @@ AmbientClauses(c, e) ==
 (* field laws as term vectors (C13 burn times, C14 heat, C15 Blake, C18 Su-Olson): `eq` entries must balance, *)
 (* `ineq` entries must sum to <= 0.  Which names exist for a family is fixed by Catalogue.FieldLaws; the      *)
 (* clause prefix is the law group of the scan.                                                               *)
-LawPrefix(c) == IF "R2D" \in Groups(c) THEN "R2D." ELSE IF "RAD" \in Groups(c) THEN "RAD." ELSE IF "BURN" \in Groups(c) THEN "BURN." ELSE IF "ELAS" \in Groups(c) THEN "ELAS."
+LawPrefix(c) == IF "RZ" \in Groups(c) THEN "RH.zone." ELSE IF "R2D" \in Groups(c) THEN "R2D." ELSE IF "RAD" \in Groups(c) THEN "RAD." ELSE IF "BURN" \in Groups(c) THEN "BURN." ELSE IF "ELAS" \in Groups(c) THEN "ELAS."
                 ELSE IF "HEAT" \in Groups(c) THEN "HEAT." ELSE IF "SUOL" \in Groups(c) THEN "SUOL." ELSE "LAW."
 FieldClauses(c, e) ==
-  IF Groups(c) \cap {"BURN", "ELAS", "HEAT", "SUOL", "RAD", "R2D"} # {} /\ e.fin
+  IF Groups(c) \cap {"BURN", "ELAS", "HEAT", "SUOL", "RAD", "R2D", "RZ"} # {} /\ e.fin
   THEN  Chk(LawPrefix(c) \o "unknown-law", DOMAIN e.eq \subseteq FieldLaws(c.fam).eq /\ DOMAIN e.ineq \subseteq FieldLaws(c.fam).ineq)
-   \cup UNION { Chk(LawPrefix(c) \o n, Balanced(e.eq[n], 20 * TolOf(c).bal)) : n \in DOMAIN e.eq }
-   \cup UNION { Chk(LawPrefix(c) \o n, Sum(e.ineq[n]) <= TolOf(c).bal) : n \in DOMAIN e.ineq }
+   \cup UNION { Chk(LawPrefix(c) \o n, Balanced(e.eq[n], TolOf(c).field)) : n \in DOMAIN e.eq }
+   \cup UNION { Chk(LawPrefix(c) \o n, Sum(e.ineq[n]) <= TolOf(c).field) : n \in DOMAIN e.ineq }
   ELSE {}
 
 PtClauses(c, e) ==
